@@ -87,9 +87,9 @@ def run(ctx):
     for op, im in zip(opl, read_lines(impl)):
         k = op.split(" ", 1)[0]
         a = im.split(" # ", 1)[0]
-        if k == "tcp":
+        if k == "tcp" and "res=" in a:
             a = [f for f in a.split() if f.startswith("res=")][0][4:]
-        elif k == "udp":
+        elif k == "udp" and len(a.split()) >= 2:
             a = a.split()[-2].split("/")[0] + ("+needmore" if a.split()[-2].endswith("/1") else "")
         elif k in ("chenc", "fenc", "frames", "uvar", "likely", "norm"):
             a = a.split(" ", 1)[0].split("=")[0] if k in ("chenc", "fenc") else a.split(" ", 1)[0]
